@@ -547,4 +547,170 @@ Section Sep.
       + exists s'. split; [exact E1|]. cbn [rev]. rewrite <- !app_assoc. cbn [app].
         split; [exact P2|]. autorewrite with pst in V2, C2. auto.
   Qed.
+
+  Lemma getchar_pos c l s : 0 < c -> getchar (c :: l) s = (c, l, addch (tick s c) c).
+  Proof. intros P. cbn [getchar]. zb. reflexivity. Qed.
+
+  (* from the start bracket to the first character of the name *)
+  Lemma sep_to_name blanks n0 tl0 s E :
+    Forall (fun x => hspace x = true) blanks -> 0 < n0 < 256 -> ready s E ->
+    exists s1, sep_first fs a (blanks ++ n0 :: tl0) s = sep_loop fs a n0 tl0 s1 /\
+               pth s1 = mkPath E [n0] 1 (pfirst (pth s)) false true /\ valid s1 = 0 /\ pcurr s1 = pcurr s.
+  Proof.
+    intros FB B0 RD. unfold sep_first. change (negb (send fs =? sstart fs)) with true. cbv iota.
+    destruct blanks as [|b0 bs].
+    - cbn [app]. rewrite getchar_pos by lia. zb.
+      eexists. split; [reflexivity|].
+      assert (RT : ready (tick s n0) E) by (destruct RD as (R1 & R2 & R3 & R4 & R5); unfold ready; now autorewrite with pst).
+      split; [rewrite (ready_addch _ _ n0 RT) by lia; now autorewrite with pst|].
+      destruct RD as (_ & _ & _ & _ & V). split; now autorewrite with pst.
+    - pose proof (Forall_inv FB) as Hb. cbn beta in Hb. apply hspace_spec in Hb as Hb'.
+      cbn [app]. rewrite getchar_pos by lia. zb.
+      assert (RT : ready (tick s b0) E) by (destruct RD as (R1 & R2 & R3 & R4 & R5); unfold ready; now autorewrite with pst).
+      destruct (sep_lead bs b0 (addch (tick s b0) b0) n0 tl0 E (pfirst (pth s)) FB B0) as (s1 & E1 & P1 & V1 & C1).
+      + rewrite (ready_addch _ _ b0 RT) by lia. now autorewrite with pst.
+      + exists s1. split; [exact E1|]. split; [exact P1|].
+        destruct RD as (_ & _ & _ & _ & V). autorewrite with pst in V1, C1. split; congruence.
+  Qed.
+
+  Record wfs (n : list Z) : Prop := mkWfs {
+    ws_chars : Forall (fun c => snc c = true) n;
+    ws_ne : n <> [];
+    ws_check : ncheck_go n true (asect a) = 0;
+    ws_len : len n <= IDENT_MAX }.
+
+  Lemma snc_nosep n : Forall (fun c => snc c = true) n -> existsb (Z.eqb SEP) n = false.
+  Proof.
+    intros H. apply onc_nosep. eapply Forall_impl; [|exact H]. intros c X. unfold snc in X.
+    now apply andb_true_iff in X.
+  Qed.
+
+  (* the section name between the brackets *)
+  Lemma sep_section_name d n rest s E :
+    wfs n -> ready s E ->
+    exists s', sep_first fs a (hws (d_mid1 d) ++ n ++ hws (d_mid2 d) ++ 93 :: rest) s = (PSection, rest, s') /\
+               pelems (pth s') = E ++ [n] /\ pbuf (pth s') = true /\ pcurr s' = Z.lor PSection PName.
+  Proof.
+    intros [NC NE NK NLEN] RD. destruct n as [|n0 n']; [now destruct NE|].
+    pose proof (Forall_inv NC) as H0. cbn beta in H0.
+    assert (B0 : 0 < n0 < 256).
+    { unfold snc in H0. apply andb_true_iff in H0. destruct H0 as [H1 _]. apply onc_spec in H1. tauto. }
+    cbn [app].
+    destruct (sep_to_name (hws (d_mid1 d)) n0 (n' ++ hws (d_mid2 d) ++ 93 :: rest) s E (hws_hspaces _) B0 RD)
+      as (s1 & E1 & P1 & V1 & C1).
+    rewrite E1. rewrite len_cons in NLEN. unfold IDENT_MAX in NLEN. pose proof (len_nonneg n').
+    assert (P1' : pth s1 = mkPath E (n0 :: []) (len (n0 :: [])) (pfirst (pth s)) false true) by exact P1.
+    pose proof (snc_nosep _ NC) as NS.
+    assert (LN : len (rev n' ++ [n0]) = len (n0 :: n')).
+    { unfold len. rewrite app_length, rev_length. cbn [length]. lia. }
+    destruct (hws (d_mid2 d)) as [|b0 bs] eqn:HB.
+    - cbn [app].
+      destruct (sep_scan n' n0 s1 93 rest E [] (pfirst (pth s)) false NC) as (s2 & E2 & P2 & V2 & C2);
+        [lia|exact P1'|now right|rewrite len_cons, len_nil; unfold VALID_MOD; lia|].
+      rewrite E2, sep_step_end.
+      assert (NE0 : n0 :: n' <> []) by discriminate.
+      assert (V2' : valid s2 = len (n0 :: n')) by (rewrite V2; exact LN).
+      destruct (section_add_gen (asect a) s2 E [93] (n0 :: n') (pfirst (pth s)) true (Z.lor PSection PName) rest NE0 NK NS P2 V2')
+        as (s' & E3 & Q).
+      exists s'. auto.
+    - assert (FB : Forall (fun c => hspace c = true) (b0 :: bs)) by (rewrite <- HB; apply hws_hspaces).
+      pose proof (Forall_inv FB) as Hb. cbn beta in Hb. apply hspace_spec in Hb as Hb'.
+      cbn [app].
+      destruct (sep_scan n' n0 s1 b0 (bs ++ 93 :: rest) E [] (pfirst (pth s)) false NC) as (s2 & E2 & P2 & V2 & C2);
+        [lia|exact P1'|now right|rewrite len_cons, len_nil; unfold VALID_MOD; lia|].
+      rewrite E2.
+      destruct (sep_scan_blanks bs b0 s2 93 rest E (rev n' ++ [n0]) (pfirst (pth s)) FB) as (s3 & E3 & P3 & V3 & C3); [lia|exact P2|].
+      rewrite E3, sep_step_end.
+      assert (NE0 : n0 :: n' <> []) by discriminate.
+      assert (V3' : valid s3 = len (n0 :: n')) by (rewrite V3, V2; exact LN).
+      assert (P3' : pth s3 = mkPath E ((93 :: rev bs ++ [b0]) ++ rev (n0 :: n')) (len ((93 :: rev bs ++ [b0]) ++ rev (n0 :: n')))
+                                 (pfirst (pth s)) true true).
+      { rewrite P3. cbn [rev app]. rewrite <- !app_assoc. reflexivity. }
+      destruct (section_add_gen (asect a) s3 E (93 :: rev bs ++ [b0]) (n0 :: n') (pfirst (pth s)) true (Z.lor PSection PName) rest
+                  NE0 NK NS P3' V3') as (s' & E4 & Q).
+      exists s'. auto.
+  Qed.
+
+  (* ---- the elements through mpt_parse_format_sep ---- *)
+  Lemma land15_ok prev : prev = 1 \/ prev = 9 \/ prev = 11 -> (Z.land prev 15 =? PSectEnd) = false.
+  Proof. intros [->|[->| ->]]; reflexivity. Qed.
+
+  Lemma sep_option d n v rest s E prev :
+    prev = 1 \/ prev = 9 \/ prev = 11 -> wfo (aopt a) n -> Forall (fun c => c <> 91) n -> wf_value v = true -> ready s E ->
+    exists s',
+      format_sep fs a prev (print_opt d n v ++ rest) s = ((match v with [] => 3 | _ => 7 end), rest, s') /\
+      pelems (pth s') = E ++ [n] /\ pcurr s' = 11 /\ valid s' = len v /\
+      (v <> [] -> post_read s' (len v) = Some v).
+  Proof.
+    intros PV WN N91 WV RD. unfold print_opt. rewrite <- !app_assoc.
+    destruct n as [|n0 n']; [now destruct (wo_ne _ _ WN)|].
+    pose proof (Forall_inv (wo_chars _ _ WN)) as H0. cbn beta in H0. apply onc_spec in H0 as H0'.
+    pose proof (Forall_inv N91) as H91. cbn beta in H91.
+    unfold format_sep. rewrite (land15_ok prev PV).
+    unfold nextvis. rewrite (nextvis_go_ext fs dfmt_fs). cbn [app].
+    destruct (nv_lead d (n0 :: n' ++ hws (d_mid1 d) ++ 61 :: hws (d_mid2 d) ++ print_value d v ++
+                         hws (d_trail d) ++ tail_comment d ++ 10 :: rest) s) as (s1 & (S1 & S2 & S3) & E1).
+    rewrite E1. rewrite nv_vis; [|lia|tauto|lia]. zb.
+    change (sstart fs) with 91. change (ostart fs) with 0. zb. cbn [negb].
+    assert (RD1 : ready (with_curr (tick s1 n0) PName) E).
+    { destruct RD as (R1 & R2 & R3 & R4 & R5). unfold ready. autorewrite with pst. rewrite S1, S2. auto. }
+    destruct (first_char_state _ E n0 RD1) as [P2 V2]; [lia|].
+    destruct (option_core fs dfmt_fs (aopt a) a d n0 n' v rest _ E _ eq_refl WN WV P2 V2) as (s' & E2 & Q).
+    exists s'. split; [exact E2|exact Q].
+  Qed.
+
+  Lemma sep_open d n rest s prev :
+    prev = 1 \/ prev = 9 \/ prev = 11 -> wfs n -> ready s [] ->
+    exists s', format_sep fs a prev (lead d ++ [91] ++ hws (d_mid1 d) ++ n ++ hws (d_mid2 d) ++ [93] ++ rest) s
+               = (PSection, rest, s') /\
+               pelems (pth s') = [n] /\ pbuf (pth s') = true /\ pcurr s' = Z.lor PSection PName.
+  Proof.
+    intros PV WN RD. unfold format_sep. rewrite (land15_ok prev PV).
+    unfold nextvis. rewrite (nextvis_go_ext fs dfmt_fs).
+    destruct (nv_lead d ([91] ++ hws (d_mid1 d) ++ n ++ hws (d_mid2 d) ++ [93] ++ rest) s) as (s1 & (S1 & S2 & S3) & E1).
+    rewrite E1. cbn [app]. rewrite nv_vis by (reflexivity || lia). zb.
+    change (sstart fs) with 91. zb. cbn [negb].
+    assert (PE : pelems (pth (tick s1 91)) = []).
+    { autorewrite with pst. rewrite S1. destruct RD as (R1 & _). exact R1. }
+    rewrite PE.
+    assert (RD1 : ready (with_curr (tick s1 91) PSection) []).
+    { destruct RD as (R1 & R2 & R3 & R4 & R5). unfold ready. autorewrite with pst. rewrite S1, S2. auto. }
+    destruct (sep_section_name d n rest _ [] WN RD1) as (s' & E2 & Q). exists s'. auto.
+  Qed.
+
+  Lemma sep_close d rest s E x prev :
+    prev = 1 \/ prev = 9 \/ prev = 11 -> ready s (x :: E) ->
+    exists s', format_sep fs a prev (lead d ++ [91] ++ rest) s = (PSectEnd, rest, s') /\
+               pelems (pth s') = x :: E /\ pcurr s' = PSectEnd.
+  Proof.
+    intros PV RD. unfold format_sep. rewrite (land15_ok prev PV).
+    unfold nextvis. rewrite (nextvis_go_ext fs dfmt_fs).
+    destruct (nv_lead d ([91] ++ rest) s) as (s1 & (S1 & S2 & S3) & E1).
+    rewrite E1. cbn [app]. rewrite nv_vis by (reflexivity || lia). zb.
+    change (sstart fs) with 91. zb. cbn [negb].
+    assert (PE : pelems (pth (tick s1 91)) = x :: E).
+    { autorewrite with pst. rewrite S1. destruct RD as (R1 & _). exact R1. }
+    rewrite PE. eexists. split; [reflexivity|]. autorewrite with pst. rewrite S1. destruct RD as (R1 & _). auto.
+  Qed.
+
+  Lemma sep_reopen d n rest s :
+    wfs n -> ready s [] ->
+    exists s', format_sep fs a PSectEnd (hws (d_mid1 d) ++ n ++ hws (d_mid2 d) ++ [93] ++ rest) s = (PSection, rest, s') /\
+               pelems (pth s') = [n] /\ pbuf (pth s') = true /\ pcurr s' = Z.lor PSection PName.
+  Proof.
+    intros WN RD. unfold format_sep. change (Z.land PSectEnd 15 =? PSectEnd) with true. cbv iota.
+    assert (RD1 : ready (with_curr s PSection) []).
+    { destruct RD as (R1 & R2 & R3 & R4 & R5). unfold ready. now autorewrite with pst. }
+    destruct (sep_section_name d n rest _ [] WN RD1) as (s' & E2 & Q). exists s'. auto.
+  Qed.
+
+  Lemma sep_eof final s prev :
+    prev = 1 \/ prev = 9 \/ prev = 11 ->
+    exists s', format_sep fs a prev (lead final) s = (0, [], s').
+  Proof.
+    intros PV. unfold format_sep. rewrite (land15_ok prev PV).
+    unfold nextvis. rewrite (nextvis_go_ext fs dfmt_fs).
+    destruct (nv_lead final [] s) as (s1 & _ & E1). rewrite app_nil_r in E1. rewrite E1.
+    cbn [nextvis_go]. zb. eexists. reflexivity.
+  Qed.
 End Sep.
